@@ -107,6 +107,10 @@ func (er *entryReaderImpl) initDags() error {
 		return err
 	}
 
+	// Start from what the directory holds now: a file that is gone must not
+	// stay scheduled.
+	er.dags = map[string]*dag.DAG{}
+
 	var fileNames []string
 	for _, fi := range fis {
 		if util.MatchExtension(fi.Name(), dag.Exts) {
